@@ -2,14 +2,23 @@ import NauyacaVerif.Fs.Static
 namespace Fs
 
 /-! ## M-Upload: `FileUploadHandler.handle_upload / _handle_delete / _is_safe_path`
-    (write to a sibling temporary file, `os.replace`, remove the temporary file on failure)
     as response status + the list of filesystem effects.
 
+Storing (step 6 of `handle_upload`): note which ancestors of the target are missing, create them,
+create a fresh sibling temporary file exclusively (`open("xb")`), write, `os.replace` onto the
+target; on any failure remove the temporary file (if it was created here) and the directories
+created here, deepest first.
+
 The filesystem is the abstract `OS` of `Fs/Static.lean` (`resolve` = `Path.resolve()`, `kind` =
-what `stat` sees); `Faults` are the injected storage failures.  Failures that the layout itself
-causes (a regular file where a directory is needed, a directory where the file should go, a name
-longer than NAME_MAX) are derived from `OS`. -/
+what `stat` sees) extended by `lexists` (what `lstat` sees: is there an entry of this name at
+all); `Faults` are the injected storage failures.  Failures that the layout itself causes (a
+regular file where a directory is needed, a directory where the file should go, a name longer
+than NAME_MAX, an entry that already carries the temporary name) are derived from the OS. -/
 abbrev Bytes := List Nat
+
+structure UOS extends OS where
+  /-- `lstat` succeeds: some entry (file, directory, symlink — dangling or not) has this name -/
+  lexists : Path → Bool
 
 structure UCfg where
   dir : Path                       -- resolved upload directory
@@ -17,7 +26,7 @@ structure UCfg where
   allowedTypes : Option (List String)   -- none or [] = all allowed
   tokens : List String                   -- [] = no authentication
   enableDelete : Bool
-  pid : String := "1"                    -- `os.getpid()` as it appears in the temporary name
+  tag : String := "0"                    -- `secrets.token_hex(8)` as it appears in the temporary name
   tooLong : Name → Bool := fun n => n.utf8ByteSize > 255          -- NAME_MAX (the OS refuses such a component)
   hasNul : Name → Bool := fun n => n.contains (Char.ofNat 0)     -- embedded NUL (Python refuses the path)
 
@@ -30,14 +39,16 @@ structure UReq where
 
 inductive Effect where
   | mkdir (p : Path)                               -- one directory created by `mkdir(parents=True)`
-  | writeTemp (p : Path) (b : Bytes) (ok : Bool)   -- b = the bytes that reached the file; ok = false: the write raised
+  | writeTemp (p : Path) (b : Bytes) (ok : Bool)   -- file created exclusively; b = the bytes that reached it; ok = false: the write raised
   | rename (src dst : Path) (ok : Bool)
   | unlink (p : Path) (ok : Bool)
+  | rmdir (p : Path)                               -- clean-up of a directory created by this request
 deriving Repr, DecidableEq
 
 /-- what the storage layer does when asked (fault injection points) -/
 structure Faults where
   mkdirFailAt : Option Nat := none       -- the (n+1)-th directory creation raises
+  openOk : Bool := true                  -- creating the temporary file raises
   writeFailAfter : Option Nat := none    -- the write raises after n bytes
   renameOk : Bool := true
   unlinkOk : Bool := true
@@ -46,7 +57,7 @@ structure Faults where
 inductive UStatus where | s20 | s40 | s50 | s51 | s59 | s60 | raised
 deriving Repr, DecidableEq
 
-def tempName (pid : String) (n : Name) : Name := "." ++ n ++ "." ++ pid ++ ".upload"
+def tempName (tag : String) : Name := "." ++ tag ++ ".upload"
 
 def hasNul (c : UCfg) (comps : List Name) : Bool := comps.any c.hasNul
 
@@ -58,12 +69,12 @@ def typeOk (c : UCfg) (r : UReq) : Bool :=
   | none => true
   | some l => l.isEmpty || l.contains r.mime
 
-def consEff (e : Effect) (r : Bool × List Effect) : Bool × List Effect := (r.1, e :: r.2)
+def consPath (p : Path) (r : Bool × List Path) : Bool × List Path := (r.1, p :: r.2)
 
 /-- `target.parent.mkdir(parents=True, exist_ok=True)` walking down from the upload directory:
     existing directories are passed, missing ones created (until one fails), anything else is an error.
-    Returns (succeeded, directories created). -/
-def mkdirWalk (os : OS) (c : UCfg) (f : Faults) : Path → List Name → Nat → Bool × List Effect
+    Returns (succeeded, directories created, outermost first). -/
+def mkdirWalk (os : OS) (c : UCfg) (f : Faults) : Path → List Name → Nat → Bool × List Path
   | _, [], _ => (true, [])
   | cur, n :: rest, made =>
     match os.kind (cur ++ [n]) with
@@ -71,37 +82,53 @@ def mkdirWalk (os : OS) (c : UCfg) (f : Faults) : Path → List Name → Nat →
     | .missing =>
       if c.tooLong n then (false, [])
       else if f.mkdirFailAt = some made then (false, [])
-      else consEff (.mkdir (cur ++ [n])) (mkdirWalk os c f (cur ++ [n]) rest (made + 1))
+      else consPath (cur ++ [n]) (mkdirWalk os c f (cur ++ [n]) rest (made + 1))
     | _ => (false, [])
 
-def tempPath (c : UCfg) (target : Path) : Path := target.dropLast ++ [tempName c.pid (target.getLast?.getD "")]
+/-- does `stat` of a path below the upload directory meet a component longer than NAME_MAX before
+    it meets a missing or non-directory one?  (`Path.exists()` then raises instead of returning False) -/
+def probeLong (os : OS) (c : UCfg) : Path → List Name → Bool
+  | _, [] => false
+  | cur, n :: rest =>
+    if os.kind cur != .dir then false
+    else if c.tooLong n then true
+    else probeLong os c (cur ++ [n]) rest
 
-def mkParents (os : OS) (c : UCfg) (f : Faults) (target : Path) : Bool × List Effect :=
-  mkdirWalk os c f c.dir (target.dropLast.drop c.dir.length) 0
+def tempPath (c : UCfg) (target : Path) : Path := target.dropLast ++ [tempName c.tag]
+
+def mkParents (os : UOS) (c : UCfg) (f : Faults) (target : Path) : Bool × List Path :=
+  mkdirWalk os.toOS c f c.dir (target.dropLast.drop c.dir.length) 0
+
+def made (os : UOS) (c : UCfg) (f : Faults) (target : Path) : List Effect := (mkParents os c f target).2.map .mkdir
+/-- the clean-up of the failure path: created directories are removed again, deepest first -/
+def undo (os : UOS) (c : UCfg) (f : Faults) (target : Path) : List Effect := (mkParents os c f target).2.reverse.map .rmdir
 
 /-- step 6 of `handle_upload` for a target that passed the containment check -/
-def store (os : OS) (c : UCfg) (f : Faults) (target : Path) (content : Bytes) : UStatus × List Effect :=
-  if !(mkParents os c f target).1 then (.s40, (mkParents os c f target).2)
-  else if c.tooLong (tempName c.pid (target.getLast?.getD "")) then (.s40, (mkParents os c f target).2)
+def store (os : UOS) (c : UCfg) (f : Faults) (target : Path) (content : Bytes) : UStatus × List Effect :=
+  if probeLong os.toOS c c.dir (target.dropLast.drop c.dir.length) then (.s40, [])       -- `ancestor.exists()` raises
+  else if !(mkParents os c f target).1 then (.s40, made os c f target ++ undo os c f target)
+  else if os.lexists (tempPath c target) || !f.openOk then (.s40, made os c f target ++ undo os c f target)
   else match f.writeFailAfter with
     | some k =>
-      (.s40, (mkParents os c f target).2 ++ [.writeTemp (tempPath c target) (content.take k) false, .unlink (tempPath c target) true])
+      (.s40, made os c f target ++
+        [.writeTemp (tempPath c target) (content.take k) false, .unlink (tempPath c target) true] ++ undo os c f target)
     | none =>
-      if !f.renameOk || os.kind target = .dir then
-        (.s40, (mkParents os c f target).2 ++
-          [.writeTemp (tempPath c target) content true, .rename (tempPath c target) target false, .unlink (tempPath c target) true])
+      if !f.renameOk || os.kind target = .dir || c.tooLong (target.getLast?.getD "") then
+        (.s40, made os c f target ++
+          [.writeTemp (tempPath c target) content true, .rename (tempPath c target) target false, .unlink (tempPath c target) true] ++
+          undo os c f target)
       else
-        (.s20, (mkParents os c f target).2 ++ [.writeTemp (tempPath c target) content true, .rename (tempPath c target) target true])
+        (.s20, made os c f target ++ [.writeTemp (tempPath c target) content true, .rename (tempPath c target) target true])
 
 /-- `_handle_delete` after the `enable_delete` test -/
-def deleteAt (os : OS) (c : UCfg) (f : Faults) (t : Path) : UStatus × List Effect :=
+def deleteAt (os : UOS) (c : UCfg) (f : Faults) (t : Path) : UStatus × List Effect :=
   if !inside c.dir t then (.s59, [])
-  else if t.any c.tooLong then (.raised, [])          -- `target.exists()` raises ENAMETOOLONG
+  else if probeLong os.toOS c c.dir (t.drop c.dir.length) then (.raised, [])   -- `target.exists()` raises ENAMETOOLONG
   else if os.kind t = .missing then (.s51, [])
   else if f.unlinkOk && os.kind t != .dir then (.s20, [.unlink t true])
   else (.s40, [.unlink t false])
 
-def handleUpload (os : OS) (c : UCfg) (f : Faults) (r : UReq) : UStatus × List Effect :=
+def handleUpload (os : UOS) (c : UCfg) (f : Faults) (r : UReq) : UStatus × List Effect :=
   if !authOk c r then (.s60, [])
   else if r.size > c.maxSize then (.s50, [])
   else if !typeOk c r then (.s59, [])
@@ -127,6 +154,7 @@ def Files.get (fs : Files) (p : Path) : Option Bytes := (fs.find? (·.1 == p)).m
 
 def applyEffect (fs : Files) : Effect → Files
   | .mkdir _ => fs
+  | .rmdir _ => fs
   | .writeTemp p b _ => fs.set p b            -- whatever reached the file before the write ended or failed
   | .rename s d ok => if ok then (match fs.get s with | some b => (fs.del s).set d b | none => fs) else fs
   | .unlink p ok => if ok then fs.del p else fs
@@ -136,8 +164,17 @@ def applyAll (fs : Files) (es : List Effect) : Files := es.foldl applyEffect fs
 /-- paths an effect touches -/
 def Effect.paths : Effect → List Path
   | .mkdir p => [p]
+  | .rmdir p => [p]
   | .writeTemp p _ _ => [p]
   | .rename s d _ => [s, d]
   | .unlink p _ => [p]
+
+/-! ### a directory-level view: which directories exist afterwards that did not exist before -/
+def dirEffect (ds : List Path) : Effect → List Path
+  | .mkdir p => ds ++ [p]
+  | .rmdir p => ds.filter (· != p)
+  | _ => ds
+
+def dirsAfter (ds : List Path) (es : List Effect) : List Path := es.foldl dirEffect ds
 
 end Fs
